@@ -62,6 +62,16 @@ func init() {
 			return nil
 		},
 		"vfScanNondeterminism": vfScanNondeterminism,
+		// vfStubRecursive(name, fn): like vfStub, but the outermost call runs the real
+		// body and only the calls made from inside it are replaced (one inductive step)
+		"vfStubRecursive": func(fr *frame, args []value) value {
+			ex := fr.i.ex
+			ex.impure("vfStubRecursive")
+			ex.stubs[args[0].(string)] = args[1].(iface).v
+			ex.stubInner[args[0].(string)] = true
+			ex.Note("contract-stub (recursive calls)", args[0].(string))
+			return nil
+		},
 		// vfHammer(f): run f (twice, sequentially) - natively it is run from several goroutines at once
 		"vfHammer": func(fr *frame, args []value) value {
 			fr.i.ex.impure("vfHammer")
@@ -234,7 +244,12 @@ func boolTerm(ex *Exec, v value) *smt.Term {
 func vfAssume(fr *frame, args []value) value {
 	ex := fr.i.ex
 	ex.impure("vfAssume")
-	ex.assume(boolTerm(ex, args[0]), true)
+	t := boolTerm(ex, args[0])
+	ex.assume(t, true)
+	// after branch decisions an assumption can contradict the path: stop the path early
+	if !t.IsTrue() && ex.Prune && len(ex.glob.d) > 0 && !ex.feasible(ex.C.True()) {
+		panic(pathEnd{reason: "infeasible"})
+	}
 	return nil
 }
 func vfAssert(fr *frame, args []value) value {
